@@ -278,3 +278,9 @@ def voronoi_update(X, norms, hausdorff, hausdorff_at_select, vlocation, active, 
         vlocation[updated] = n_selected
     vlocation[last] = n_selected
     return hausdorff_at_select, hausdorff, vlocation
+
+
+def voronoi_first_table_active_only(X, norms, first, full_fraction):
+    # the first step written with the active-only update: every sample is active
+    n = X.shape[0]
+    return voronoi_update_active_only(X, norms, np.full(n, np.inf), np.full(n, np.inf), np.full(n, 1), np.arange(n), 0, first, full_fraction)[1]
